@@ -22,6 +22,7 @@ import (
 	"net/http/httptest"
 	"net/url"
 	"os"
+	"regexp"
 	"sort"
 	"strconv"
 	"strings"
@@ -510,7 +511,7 @@ type vc17H struct {
 	pcache map[string][]vc17Call
 	rt     *vc17RT
 	climit int
-	groupN int  // groups run so far (the early-reply shapes run on every 6th group and on every fault group)
+	groupN int  // groups run so far (the early-reply shapes run on every 8th group and on every fault group)
 	all    bool // replay: every shape
 	lcN    int  // classified load faults generated so far
 }
@@ -915,7 +916,7 @@ var vc17Shapes = []vc17Shape{
 	{ep: "cchat", stream: 1, tools: true, model: vc17Tools}, {ep: "cchat", stream: 0, tools: true, model: vc17Tools},
 	{ep: "cchat", stream: 1, ctx: true, model: vc17Plain},
 	{ep: "cchat", stream: 1, tools: true, ctx: true, model: vc17Tools}, {ep: "cchat", stream: 0, tools: true, ctx: true, model: vc17Tools},
-	// requests answered before the runner is started (run on every 6th group and on every fault group)
+	// requests answered before the runner is started (run on every 8th group and on every fault group)
 	{ep: "gen", stream: 1, empty: true, model: vc17Plain}, {ep: "gen", stream: 0, empty: true, model: vc17Plain},
 	{ep: "gen", stream: 1, empty: true, ka0: true, model: vc17Plain}, {ep: "gen", stream: 0, empty: true, ka0: true, model: vc17Plain},
 	{ep: "gen", stream: 1, raw: true, ctx: true, model: vc17Plain}, {ep: "gen", stream: 0, raw: true, ctx: true, model: vc17Plain},
@@ -938,6 +939,8 @@ type vc17Res struct {
 	cerr   string // client view: "ok" or the error text
 	client bool
 	wire   []vc17Ev // client view: the lines api.Client was handed, decoded from the raw bytes
+	ctype  string   // raw views: Content-Type of the response
+	ids    []string // OpenAI views: the id of every payload
 	lens   []int    // client view: their lengths
 }
 
@@ -1097,6 +1100,8 @@ func vc17Msgs(s vc17Shape, g vc17Group, openai bool) []map[string]any {
 	return out
 }
 
+var vc17IDRe = regexp.MustCompile(`"id":"((?:chatcmpl|cmpl)-[0-9]+)"`)
+
 var vc17Paths = map[string]string{"gen": "/api/generate", "chat": "/api/chat", "oachat": "/v1/chat/completions", "oacmpl": "/v1/completions"}
 
 func (h *vc17H) request(s vc17Shape, g vc17Group) vc17Res {
@@ -1172,7 +1177,13 @@ func (h *vc17H) request(s vc17Shape, g vc17Group) vc17Res {
 		req.Header.Set("Content-Type", "application/json")
 		h.router.ServeHTTP(w, req)
 		res.status = w.Code
+		res.ctype = w.Header().Get("Content-Type")
 		raw := w.Body.Bytes()
+		if s.ep == "oachat" || s.ep == "oacmpl" {
+			for _, m := range vc17IDRe.FindAllSubmatch(raw, -1) {
+				res.ids = append(res.ids, string(m[1]))
+			}
+		}
 		native := s.ep == "gen" || s.ep == "chat"
 		switch {
 		case native:
@@ -1302,7 +1313,7 @@ func (h *vc17H) runGroup(g vc17Group) {
 	table, early := h.table(chunks)
 	results := map[string]vc17Res{}
 	h.groupN++
-	runPre := h.all || g.fault != "" || h.groupN%6 == 0
+	runPre := h.all || g.fault != "" || h.groupN%8 == 0
 	for _, s := range vc17Shapes {
 		if s.pre() && !runPre {
 			continue
@@ -1376,6 +1387,29 @@ func vc17Aggregate(evs []vc17Ev) vc17Agg {
 	return a
 }
 
+// f17aPrediction: the streamed tool reply as finding F17a describes it (per-chunk parse of the accumulated text with the
+// REAL parseToolCalls, reset on a hit, remainder flushed with the done chunk)
+func (h *vc17H) f17aPrediction(chunks []llm.CompletionResponse) (string, []vc17Call) {
+	sb, text := "", ""
+	var calls []vc17Call
+	for _, c := range chunks {
+		sb += c.Content
+		if cs := h.parse(sb); len(cs) > 0 {
+			calls = append(calls, cs...)
+			sb = ""
+			continue
+		}
+		if c.Done {
+			if len(calls) == 0 {
+				text += sb
+			} else {
+				text += c.Content
+			}
+		}
+	}
+	return text, calls
+}
+
 func vc17NoIdx(cs []vc17Call) string {
 	parts := make([]string, len(cs))
 	for i, c := range cs {
@@ -1432,6 +1466,28 @@ func (h *vc17H) monitors(g vc17Group, chunks []llm.CompletionResponse, results m
 		}
 		native := s.ep == "gen" || s.ep == "chat"
 		h.branches(s, g, res)
+		// --- framing: Content-Type by kind of reply; one id for all the payloads of an OpenAI reply
+		if !res.client {
+			want := "application/json"
+			switch {
+			case native && s.streaming() && res.status == 200 && early == "":
+				want = "application/x-ndjson"
+			case !native && s.streaming() && res.status == 200:
+				want = "text/event-stream"
+			}
+			if !strings.HasPrefix(res.ctype, want) {
+				fail("content-type", s, fmt.Sprintf("status=%d content-type=%q want %q", res.status, res.ctype, want))
+			}
+			if !native && res.status == 200 {
+				same := true // (a stream of error events only carries no id)
+				for _, id := range res.ids {
+					same = same && id == res.ids[0]
+				}
+				if !same {
+					fail("openai-id", s, fmt.Sprintf("ids=%q", res.ids))
+				}
+			}
+		}
 		// --- a native stream ends with exactly one final message or one error
 		if native && s.streaming() {
 			a := vc17Aggregate(res.evs)
@@ -1528,11 +1584,22 @@ func (h *vc17H) monitors(g vc17Group, chunks []llm.CompletionResponse, results m
 					kind = "tools-split"
 				}
 				if a.text != oe.text || vc17NoIdx(a.calls) != vc17NoIdx(oe.calls) {
-					fail(kind, s, fmt.Sprintf("stream text=%q calls=[%s] once text=%q calls=[%s]", a.text, vc17NoIdx(a.calls), oe.text, vc17NoIdx(oe.calls)))
+					mech := ""
+					if s.tools {
+						// what finding F17a explains, and nothing else: the streamed reply is exactly "parse the buffer at
+						// every chunk, reset it on a hit, flush what is left at done" computed with the real parser
+						pt, pc := h.f17aPrediction(chunks)
+						mech = "mech=other "
+						if a.text == pt && vc17NoIdx(a.calls) == vc17NoIdx(pc) {
+							mech = "mech=early-parse-reset "
+						}
+					}
+					fail(kind, s, mech+fmt.Sprintf("stream text=%q calls=[%s] once text=%q calls=[%s]", a.text, vc17NoIdx(a.calls), oe.text, vc17NoIdx(oe.calls)))
 				} else if vc17Idx(a.calls) != vc17Idx(oe.calls) {
 					fail("tools-index", s, fmt.Sprintf("ncalls=%d stream-index=%s once-index=%s", len(a.calls), vc17Idx(a.calls), vc17Idx(oe.calls)))
 				}
-				if vc17Fin(a.last) != vc17Fin(&oe) && !(a.last == nil && !oe.done && oe.named == "0") {
+				// (a stream that delivered nothing vs the zero-value reply: only without the F17d repair)
+				if vc17Fin(a.last) != vc17Fin(&oe) && !(zzverif.EnvInt("VERIF_C17_VARIANT", 0)&8 == 0 && a.last == nil && !oe.done && oe.named == "0") {
 					fail(s.ep+"-final-meta", s, "stream last: "+vc17Fin(a.last)+" once: "+vc17Fin(&oe))
 				}
 			}
@@ -1599,6 +1666,7 @@ func (h *vc17H) monitors(g vc17Group, chunks []llm.CompletionResponse, results m
 				o.stream = 0
 			}
 			if o.ep == "gen" && o.model == vc17Tools {
+				h.out.Count("l2_openai_skipped_no_twin_recorded")
 				continue // no native twin was recorded for this model; covered by the plain model
 			}
 			if o.ep == "chat" && o.stream == 1 && o.model == vc17Tools && !o.tools {
@@ -1606,9 +1674,15 @@ func (h *vc17H) monitors(g vc17Group, chunks []llm.CompletionResponse, results m
 			}
 			nat, ok := results[o.String()]
 			if !ok {
+				h.out.Count("l2_openai_skipped_no_twin_recorded")
 				continue
 			}
 			na := vc17Aggregate(nat.evs)
+			if s.streaming() {
+				h.out.Count("l2_openai_compared_stream")
+			} else {
+				h.out.Count("l2_openai_compared_once")
+			}
 			if !s.streaming() {
 				if len(res.evs) != 1 {
 					fail("openai-once", s, fmt.Sprintf("bodies=%d", len(res.evs)))
@@ -1622,6 +1696,7 @@ func (h *vc17H) monitors(g vc17Group, chunks []llm.CompletionResponse, results m
 					continue
 				}
 				if len(nat.evs) != 1 {
+					h.out.Count("l2_openai_skipped_native_bodies")
 					continue
 				}
 				ne := nat.evs[0]
